@@ -302,6 +302,45 @@ def run_under_operator(args):
     return p
 
 
+def run_dnp(cases):
+    """C01's 221YYY spans over elements and pure state operators, in the encode direction"""
+    from mc.checks import c01
+    import contextlib, io
+    p = Partial()
+    for case in cases:
+        for nsub, comp in ((1, False), (2, True)):
+            p.n['exec'] += 1
+            try:
+                b, spec, subs, notes = c01.dnp_build(case, nsub, comp)
+            except (codec.RefError, ValueError):
+                p.n['envelope_skipped'] += 1
+                continue
+            if notes:
+                p.n['envelope_skipped'] += 1
+                continue
+            port = codec.encode.last_port
+            fj = message.flat_json(spec, CC.impl_input_values(subs, port, comp))
+            with contextlib.redirect_stderr(io.StringIO()):
+                try:
+                    got = CC.encoder().process(fj, wire_template_data=False).serialized_bytes
+                except Exception as e:
+                    p.violation('dnp-span|encode-raises:' + type(e).__name__, {'case': [case[0], case[1]], 'nsub': nsub, 'compressed': comp},
+                                '221%03d %s: %r' % (case[0], case[1], e))
+                    continue
+            p.outcome((case[0], len(case[1]), comp, len(subs[0].labels)))
+            d = None
+            if not comp:
+                if got != b:
+                    d = ('bytes', 'encoded %s, independently built %s' % (got.hex(), b.hex()))
+            else:
+                d = CC.judge_compressed(got, spec, subs, spec.descs)
+            if d:
+                p.violation('dnp-span|' + d[0], {'case': [case[0], case[1]], 'nsub': nsub, 'compressed': comp},
+                            '221%03d %s: %s' % (case[0], case[1], d[1]))
+    p.n['nodes'], p.n['edges'] = p.n['exec'] + 1, p.n['exec']
+    return p
+
+
 def replay(part, case):
     if part.startswith('tree'):
         return CC.replay_tree(case)
@@ -312,6 +351,9 @@ def replay(part, case):
         s_ = case['struct']
         p = run_under_operator(([(s_[0], s_[1], [[tuple(x) for x in q] for q in s_[2]], s_[3])], case['env']))
         return [{'sig': v['sig'], 'detail': v['detail']} for v in p.viol]
+    if part == 'dnp-spans':
+        p = run_dnp([(case['case'][0], case['case'][1])])
+        return [{'sig': v['sig'], 'detail': v['detail']} for v in p.viol if v['case']['compressed'] == case['compressed']]
     if part == 'large':
         p = run_large([tuple(case['case'])])
         return [{'sig': v['sig'], 'detail': v['detail']} for v in p.viol if v['case']['encoder'] == case['encoder']]
@@ -387,6 +429,10 @@ def main(tier, seed):
                      rule='differential: plain encoder vs encoder with template compilation (first and cached run) on bitmap structures '
                           'with 201 / 202 / 207 / 208 / 203 in force or cancelled at the markers (204 at markers: known finding of C08)')
     from mc.checks import c01 as _c01
+    dc = _c01.dnp_cases(tier)
+    p = merge_all(run_shards(run_dnp, split(dc, 64)))
+    rep.add_part('dnp-spans', p, bounds={'cases': len(dc), 'tokens': _c01.DNP_TOKENS},
+                 rule='221YYY spans over elements and pure state operators (see C01), encoded')
     lc = _c01.large_cases(tier)
     p = merge_all(run_shards(run_large, [[c] for c in lc]))
     rep.add_part('large', p, bounds={'cases': [c[0] for c in lc]},
